@@ -96,11 +96,27 @@ def nobs(x, dt=False):
     return norm(x, dt)
 
 
+TAP = None      # C19 sets this to a list: the element dtypes of every observed result are recorded on the side
+
+
+def dtypes_of(x):
+    """the element-dtype skeleton of a result (no values): ragged results only -- a plain ndarray may be index-valued
+    (lengths, offsets, coordinates), and those legitimately follow the configured index width"""
+    if is_ragged(x):
+        return ("R", str(x.dtype))
+    if isinstance(x, (tuple, list)):
+        return tuple(dtypes_of(i) for i in x)
+    return None
+
+
 def observe(f, dt=False):
     """run f and normalise its result; an exception anywhere -- in the call or while the result is
     read back (lazy views fail late) -- is the observation ('X', type)"""
     try:
-        return norm(f(), dt)
+        r = f()
+        if TAP is not None:
+            TAP.append(dtypes_of(r))
+        return norm(r, dt)
     except Exception as e:  # noqa: BLE001
         return ("X", type(e).__name__)
 
